@@ -320,7 +320,8 @@ def export_model(m, rec, spec, want, nwin):
     out['Ls'] = [int(x) for x in lat.Ls]
     out['perm'] = [[int(x) for x in s.perm] for s in sites]
     out['bc'] = [bool(b) for b in lat.bc]
-    out['explicit_plus_hc'] = bool(m.explicit_plus_hc)
+    out['explicit_plus_hc'] = bool(getattr(m, 'explicit_plus_hc', False))
+    out['trivial_shift'] = bool(lat.unit_cell[0].leg.chinfo.trivial_shift)
     uc = lat.unit_cell
     out['needs_JW'] = [{op: bool(s.op_needs_JW(op)) for op in s.opnames} for s in uc]
     out['hc_ops'] = [{op: s.get_hc_op_name(op) for op in s.opnames if True} for s in uc]
@@ -486,6 +487,12 @@ def export_model(m, rec, spec, want, nwin):
                 rec.run('H_group', grouped)
         # extract_segment
         seg = spec.get('segment')
+        if seg == 'auto':
+            ring = max(1, L // int(lat.Ls[0]))
+            seg = [ring, 2 * ring - 1] if (finite and L >= 3 * ring) else ([0, ring - 1] if finite and L >= 2 * ring else None)
+            if not finite:
+                seg = [1, ring] if (ring + 1) <= N else None
+            out['segment'] = seg
         if seg is not None:
             def segment():
                 m2 = m.extract_segment(first=seg[0], last=seg[1])
